@@ -421,8 +421,9 @@ def explore(stmts, atoms, names=(), upto=None, max_paths=20000, exceptions=False
             val = node.ast.value
             cenv = dict(cenv)
             cenv[nm] = val.value if isinstance(val, ast.Constant) else eval3(val, cenv, atoms)
-            if cenv[nm] is UNK and isinstance(val, nonnull):
-                cenv[nm] = NONNULL        # a display / subscript of a table of tuples is not None: `x is None` tests on it are decided
+            if cenv[nm] is UNK and (isinstance(val, nonnull) or (isinstance(val, ast.Call) and isinstance(val.func, ast.Name) and val.func.id in
+                                                               ('int', 'len', 'float', 'str', 'abs', 'min', 'max', 'sum', 'list', 'tuple', 'dict', 'set', 'sorted', 'bool', 'round'))):
+                cenv[nm] = NONNULL        # a display / subscript of a table of tuples / result of a value-building builtin is not None
             if names is None or nm in names:
                 env = dict(env)
                 env[nm] = val
